@@ -52,6 +52,8 @@ def all_configs(tier):
     out.append({"kind": "tf_shampoo", "s": sf, "p": pf, "start": st})
   for f, st in itertools.product([1, 2, 3, 4] if tier == "quick" else [1, 2, 3, 4, 5, 6], [0, 2]):
     out.append({"kind": "tf_sketchy", "s": f, "start": st})
+    if st == 0:
+      out.append({"kind": "tf_sketchy", "s": f, "start": st, "ekfac": True})
   return out
 
 
@@ -211,7 +213,8 @@ def run_tf(c, seed, rec):
   wit = {"config": c, "seed": seed}
   if sk:
     so = second_order.Options(merge_dims=2, second_order_type=second_order.SecondOrderType.SKETCHY, shampoo_options=None,
-                              sketchy_options=sketchy.Options(rank=2, update_freq=c["s"], second_moment_decay=0.9))
+                              sketchy_options=sketchy.Options(rank=2, update_freq=c["s"], second_moment_decay=0.9,
+                                                              ekfac_svd=bool(c.get("ekfac"))))
   else:
     so = second_order.Options(merge_dims=2, shampoo_options=tshampoo.Options(
         block_size=4, update_statistics_freq=c["s"], update_preconditioners_freq=c["p"], second_moment_decay=0.5))
@@ -246,7 +249,14 @@ def run_tf(c, seed, rec):
       rec.violation("second-order-count", "second-order count %d -> %d at step %d" % (int(so0.count), int(so1.count), t), wit)
       return
     if sk:
-      ch = _bits(so0.sketches) != _bits(so1.sketches)
+      # the sketch proper (directions, eigenvalues, escaped mass and their inverse roots); with ekfac_svd the per-step
+      # SVD buffers legitimately change every step, the sketch itself must not
+      def sketch_fields(st_):
+        out_ = []
+        for leaf in jax.tree.leaves(st_.sketches, is_leaf=lambda x: isinstance(x, sketchy._AxisState)):
+          out_.extend(np.asarray(getattr(leaf, f_)).tobytes() for f_ in ("eigvecs", "eigvals", "inv_eigvals", "tail", "inv_tail"))
+        return out_
+      ch = sketch_fields(so0) != sketch_fields(so1)
       due = (t % c["s"] == 0)
       pattern.append("K" if ch else "-")
       if ch and not due:
